@@ -11,18 +11,31 @@ import (
 // ---- C09: every fault position / pair of fault positions, then a clean run ----
 
 func shapeFiles(shape []int) ([]execrun.FileSpec, []string) {
-	var fs []execrun.FileSpec
-	var flat []string
+	fs, flat, _ := shapeFilesCk(shape, 0)
+	return fs, flat
+}
+
+// shapeFilesCk: bit i of mask makes file i a checkpoint. On a database without history the executor starts
+// at the latest checkpoint (Executor.Pending: FilesFromLastCheckpoint), so flat holds the statements of the
+// files from there on; first is the index of that file.
+func shapeFilesCk(shape []int, mask int) (fs []execrun.FileSpec, flat []string, first int) {
+	for i := range shape {
+		if mask&(1<<i) != 0 {
+			first = i
+		}
+	}
 	for i, n := range shape {
-		f := execrun.FileSpec{Name: fmt.Sprintf("%d_f.sql", i+1)}
+		f := execrun.FileSpec{Name: fmt.Sprintf("%d_f.sql", i+1), Ckpt: mask&(1<<i) != 0}
 		for j := 0; j < n; j++ {
 			s := fmt.Sprintf("F%dS%d;", i+1, j+1)
 			f.Stmts = append(f.Stmts, s)
-			flat = append(flat, s)
+			if i >= first {
+				flat = append(flat, s)
+			}
 		}
 		fs = append(fs, f)
 	}
-	return fs, flat
+	return fs, flat, first
 }
 
 func shapes(maxFiles, maxStmts int) [][]int {
@@ -58,12 +71,34 @@ func genC09(w *out.W, tier string) {
 		maxFiles, maxStmts, triples = 3, 4, true
 	}
 	w.Exhaust = true
-	w.Rule = fmt.Sprintf("exhaustive: every directory shape of 1..%d files x 0..%d statements x every fault position (each ExecContext and each WriteRevision call of the run) in a first run x every fault position or none in a second run (thorough: also a third) x a final clean run; ExecuteN(0) each time on a recording driver/store. Non-trivial = at least one fault hit a call that was actually made; distinct by (shape, fault positions)", maxFiles, maxStmts)
+	w.Rule = fmt.Sprintf("exhaustive: every directory shape of 1..%d files x 0..%d statements x every fault position (each ExecContext and each WriteRevision call of the run) in a first run x every fault position or none in a second run (thorough: also a third) x a final clean run; plus the same for every directory of 1..%d files x 1..2 statements x every non-empty set of checkpoint files (the run starts at the latest checkpoint); plus non-linear histories: versions 1 and 3 applied, version 2 added, --exec-order non-linear with every fault position / pair inside the out-of-order file; ExecuteN(0) each time on a recording driver/store. Non-trivial = at least one fault hit a call that was actually made; distinct by (shape, checkpoint set, fault positions)", maxFiles, maxStmts, maxFiles)
 	id := 0
+	type shm struct {
+		sh   []int
+		mask int
+	}
+	var all []shm
 	for _, sh := range shapes(maxFiles, maxStmts) {
-		files, flat := shapeFiles(sh)
-		total := 0
+		all = append(all, shm{sh, 0})
+	}
+	// directories with checkpoint files (every non-empty set of checkpoint positions), files of 1..2 statements
+	for _, sh := range shapes(maxFiles, 2) {
+		zero := false
 		for _, n := range sh {
+			zero = zero || n == 0
+		}
+		if zero {
+			continue
+		}
+		for mask := 1; mask < 1<<len(sh); mask++ {
+			all = append(all, shm{sh, mask})
+		}
+	}
+	for _, sm := range all {
+		sh := sm.sh
+		files, flat, first := shapeFilesCk(sh, sm.mask)
+		total := 0
+		for _, n := range sh[first:] {
 			total += 2*n + 2
 		}
 		var seqs [][]int
@@ -106,16 +141,65 @@ func genC09(w *out.W, tier string) {
 				w.Count("run-outcome:" + strings.SplitN(res[i].Outcome, ":", 2)[0])
 			}
 			if hit {
-				w.NonTrivial(fmt.Sprintf("%v|%v", sh, sq))
+				w.NonTrivial(fmt.Sprintf("%v|%d|%v", sh, sm.mask, sq))
 			}
-			oracleC09(w, cid, sh, flat, sq, res)
+			if sm.mask != 0 {
+				w.Count("checkpoint-dirs")
+			}
+			oracleC09(w, cid, sh, sm.mask, first, flat, sq, res)
+		}
+	}
+	genC09NonLinear(w, &id)
+}
+
+// genC09NonLinear: versions 1 and 3 are applied cleanly, then version 2 is added and the directory is run with
+// --exec-order non-linear: every fault position / pair of fault positions inside the out-of-order file, then
+// clean runs. The documented order is 1, 3, then 2 (an out-of-order file runs when it shows up), and a later
+// run continues the out-of-order file at its first unrecorded statement like any other file.
+func genC09NonLinear(w *out.W, id *int) {
+	for _, sh := range [][]int{{1, 1, 1}, {1, 2, 1}, {2, 3, 1}, {1, 3, 2}, {2, 2, 2}} {
+		files, _ := shapeFiles(sh)
+		var flat []string
+		for _, i := range []int{0, 2, 1} {
+			flat = append(flat, files[i].Stmts...)
+		}
+		base := []execrun.FileSpec{files[0], files[2]}
+		total := 2*sh[1] + 2
+		var seqs [][]int
+		for i := 0; i < total; i++ {
+			seqs = append(seqs, []int{i})
+			for j := 0; j < total; j++ {
+				seqs = append(seqs, []int{i, j})
+			}
+		}
+		seqs = append(seqs, []int{})
+		for _, sq := range seqs {
+			*id++
+			cid := fmt.Sprintf("c09-%d", *id)
+			runs := []execrun.Run{{Order: "non-linear", Files: base}}
+			for _, fi := range sq {
+				runs = append(runs, execrun.Run{Order: "non-linear", Faults: faultAt(fi), Files: files})
+			}
+			runs = append(runs, execrun.Run{Order: "non-linear", Files: files}, execrun.Run{Order: "non-linear", Files: files})
+			line, obs, res, err := execrun.History(runs)
+			if err != nil {
+				w.Violation(cid, "harness", err.Error())
+				continue
+			}
+			w.Case(cid, line, obs)
+			w.Count("non-linear-histories")
+			w.NonTrivial(fmt.Sprintf("nl|%v|%v", sh, sq))
+			oracleC09(w, cid, sh, 0, 0, flat, append([]int{-1}, sq...), res)
 		}
 	}
 }
 
 // oracleC09 states property C09 on the recorded events of the real executor.
-func oracleC09(w *out.W, id string, shape []int, flat []string, faults []int, res []execrun.Result) {
+func oracleC09(w *out.W, id string, shape []int, mask, first int, flat []string, faults []int, res []execrun.Result) {
 	desc := fmt.Sprintf("shape=%v faults-at-call=%v", shape, faults)
+	if mask != 0 {
+		desc = fmt.Sprintf("shape=%v checkpoint-files(bitmask)=%d start-at-file=%d faults-at-call=%v", shape, mask, first+1, faults)
+	}
 	p := 0                          // next expected statement of flat
 	repeatOK := map[string]bool{}   // statements whose own bookkeeping write failed
 	execOK := map[string]int{}      // successful executions per file version
@@ -188,6 +272,9 @@ func oracleC09(w *out.W, id string, shape []int, flat []string, faults []int, re
 	}
 	// final table: every file complete
 	for i, n := range shape {
+		if i < first {
+			continue // files before the latest checkpoint are not part of a run on a fresh database
+		}
 		// (the partial hashes may remain when the final clean-up write failed; that is harmless)
 		want := fmt.Sprintf("%s:%d:%d:", execrun.Hex(fmt.Sprint(i+1)), n, n)
 		if !strings.Contains(" "+last.Table, " "+want) {
